@@ -22,6 +22,7 @@ obs   = (bgp / frag streams) the bag of solutions as rows of term numbers, compa
         tree with its mutable `ctx` fields) for fragment queries, run repeatedly on data / data2.
 """
 import random
+import re
 import warnings
 
 import core  # noqa: F401
@@ -355,8 +356,9 @@ def gen_case(rng, tier, i):
     """bgp / frag cases (the ones the Lean model also evaluates) are generated here; the others are generated
     inside the worker from a seed (`materialize`) because choosing a query with a non-empty answer needs
     evaluations, which would serialise the run if done in the parent process."""
-    stream = rng.choices(["rewrite", "init", "prepared", "store", "bgp", "frag"], [32, 12, 16, 16, 12, 12])[0]
-    if stream in ("bgp", "frag"):
+    stream = rng.choices(["rewrite", "init", "prepared", "store", "bgp", "frag", "sel"],
+                         [30, 12, 15, 15, 10, 10, 8])[0]
+    if stream in ("bgp", "frag", "sel"):
         return _gen_case(rng, tier, i, stream)
     return {"lazy": rng.randrange(1 << 60), "stream": stream}
 
@@ -395,6 +397,29 @@ def _gen_case(rng, tier, i, stream):
             if vs:
                 case["init"] = [rng.choice(vs), rng.choice(g.subs + g.objs)]
         return case
+    if stream == "sel":
+        # SELECT pv|* { BGP . [{ SELECT pv' { BGP' } }] [FILTER e] } with initBindings for one or two variables,
+        # inside or outside the property's side condition (the model follows the code in both cases)
+        data = gen_data(rng, False)
+        g = Gen(rng, data, False, nvars=rng.choice([3, 4]))
+        els = [g.bgp(1, 3, paths=False)]
+        if rng.random() < 0.55:
+            inner = g.bgp(1, 2, paths=False)
+            ivs = sorted(all_vars(inner))
+            sq = {"distinct": False, "proj": rng.sample(ivs, rng.randint(1, len(ivs))),
+                  "where": {"k": "group", "els": [inner]}, "group": None, "count": None, "order": None}
+            els.append({"k": "sub", "q": sq})
+        where = {"k": "group", "els": els}
+        vis = sorted(visible_vars(where))
+        if rng.random() < 0.4:
+            where["els"].append({"k": "filter", "e": gen_frag_expr(rng, g, g.vars, 0)})
+        q = {"distinct": False, "proj": (rng.sample(g.vars, rng.randint(1, len(g.vars))) if rng.random() < 0.5 else None),
+             "where": where, "group": None, "count": None, "order": None}
+        outer = sorted(all_vars(els[0]))
+        ivars = rng.sample(outer, min(len(outer), rng.choice([1, 1, 2]))) if outer and rng.random() < 0.75 \
+            else rng.sample(g.vars, rng.choice([1, 2]))
+        init = [[v, rng.choice(g.subs + g.objs)] for v in sorted(set(ivars))]
+        return {"stream": "sel", "data": data, "ds": False, "q": q, "seed": seed, "inits": init, "nvars": len(g.vars)}
     if stream == "frag":
         data = gen_data(rng, False)
         g = Gen(rng, data, False, nvars=3)
@@ -762,8 +787,9 @@ def build(data, kind="mem", ds=False, split=None, order_seed=None):
 
 def _exc_name(e):
     n = type(e).__name__
-    return n if n in ("IndexError", "KeyError", "ValueError", "TypeError", "ParseException", "AlreadyBound",
-                      "RecursionError") else "Other:" + n + ":" + str(e)[:60]
+    if n in ("IndexError", "KeyError", "ValueError", "TypeError", "ParseException", "AlreadyBound", "RecursionError"):
+        return n
+    return "Other:" + n + ":" + re.sub(r"0x[0-9a-fA-F]+", "0x", str(e))[:60]
 
 
 def canon(res, colmap=None, ordered=False):
@@ -1047,10 +1073,34 @@ def run_impl(case):
                 viol.append("prepared: prepared fragment query on %s gives %s, fresh gives %s"
                             % (nm, _short(r), _short(fresh[nm])))
 
+    elif stream == "sel":
+        vs = VARS[: case["nvars"]]
+        inits = case["inits"]
+        ib = {v[1:]: TERMS[t] for v, t in inits}
+        a = evaluate(base_g, q, init=ib)
+        qv = _copy(q)
+        els = qv["where"]["els"]
+        npat = len([e for e in els if e["k"] != "filter"])
+        els.insert(npat, {"k": "values", "vs": [v for v, _t in inits], "rows": [[t for _v, t in inits]]})
+        b = evaluate(base_g, qv)
+        obs += [rows_line(a, vs), rows_line(b, vs)]
+        sub = next((e for e in q["where"]["els"] if e["k"] == "sub"), None)
+        outer = all_vars(q["where"]["els"][0])
+        ok = all(v in outer for v, _t in inits) and (sub is None or not (set(v for v, _t in inits) & all_vars(sub)))
+        stats["sel_side_condition_" + ("met" if ok else "unmet")] = 1
+        if sub is not None:
+            stats["sel_with_subselect"] = 1
+        compared += 1
+        if ok and a != b:
+            viol.append("init: initBindings %s give %s, the VALUES row gives %s" % (inits, _short(a), _short(b)))
+        if a != b:
+            stats["sel_init_differs_from_values"] = 1
+
     nontrivial = ref[0] == "ok" and bool(ref[2]) and compared > 0
     stats["comparisons"] = compared
     return {"obs": obs, "viol": viol, "nontrivial": nontrivial,
-            "key": repr((stream, data, q, case.get("rw"), case.get("init"), case.get("split"))), "stats": stats}
+            "key": repr((stream, data, q, case.get("rw"), case.get("init"), case.get("inits"), case.get("split"))),
+            "stats": stats}
 
 
 # ---------------------------------------------------------------------------------------------
@@ -1132,10 +1182,10 @@ def model_lines(case):
     stream = case["stream"]
     if "lazy" in case:
         return []
-    if stream not in ("bgp", "frag"):
+    if stream not in ("bgp", "frag", "sel"):
         return []
     q, data = case["q"], case["data"]
-    vs = frag_vars(q)
+    vs = VARS[: case["nvars"]] if stream == "sel" else frag_vars(q)
     lits = [TERM_NUM[k] for k in LITS]
     lines = ["reset %d %d %d" % (len(vs), min(lits), max(lits))]
     if stream == "bgp":
@@ -1155,6 +1205,29 @@ def model_lines(case):
         return lines
     for s, p, o, _g in data:
         lines.append("t A %d %d %d 0" % (TERM_NUM[s], TERM_NUM[p], TERM_NUM[o]))
+    if stream == "sel":
+        def tps(ts):
+            out = [str(len(ts))]
+            for a, b, c in ts:
+                out += [_pt(a, vs), _pt(b, vs), _pt(c, vs)]
+            return out
+        els = q["where"]["els"]
+        toks = ["sel"] + tps(els[0]["ts"])
+        sub = next((e for e in els if e["k"] == "sub"), None)
+        if sub is None:
+            toks.append("nosub")
+        else:
+            sq = sub["q"]
+            toks += ["sub", str(len(sq["proj"]))] + [str(vs.index(v)) for v in sq["proj"]] \
+                + tps(sq["where"]["els"][0]["ts"])
+        filt = next((e for e in els if e["k"] == "filter"), None)
+        toks += ["nofilt"] if filt is None else ["filt"] + _expr_tokens(filt["e"], vs)
+        toks += ["star"] if q["proj"] is None else ["proj", str(len(q["proj"]))] + [str(vs.index(v)) for v in q["proj"]]
+        lines.append(" ".join(toks))
+        for v, t in case["inits"]:
+            lines.append("init %d %d" % (vs.index(v), TERM_NUM[t]))
+        lines += ["store mem", "evalinit", "evalvalues"]
+        return lines
     for s, p, o, _g in case["data2"]:
         lines.append("t B %d %d %d 0" % (TERM_NUM[s], TERM_NUM[p], TERM_NUM[o]))
     toks = _group_tokens(q["where"], vs)
@@ -1241,6 +1314,23 @@ def _shrink_select(q):
 def shrink(case):
     if "lazy" in case:
         yield materialize(case)
+        return
+    if case["stream"] == "sel":     # keep the shape `BGP [sub-select] [filter]` and at least one binding
+        data = case["data"]
+        for i in range(len(data)):
+            yield {**case, "data": data[:i] + data[i + 1:]}
+        if len(case["inits"]) > 1:
+            for i in range(len(case["inits"])):
+                yield {**case, "inits": case["inits"][:i] + case["inits"][i + 1:]}
+        els = case["q"]["where"]["els"]
+        for i in range(1, len(els)):
+            yield {**case, "q": {**case["q"], "where": {"k": "group", "els": els[:i] + els[i + 1:]}}}
+        if case["q"]["proj"] is not None:
+            yield {**case, "q": {**case["q"], "proj": None}}
+        ts = els[0]["ts"]
+        if len(ts) > 1:
+            for i in range(len(ts)):
+                yield {**case, "q": {**case["q"], "where": {"k": "group", "els": [{"k": "bgp", "ts": ts[:i] + ts[i + 1:]}] + els[1:]}}}
         return
     data = case["data"]
     for i in range(len(data)):
